@@ -390,3 +390,39 @@ reg("C22",
     "counted and skipped. Three known findings, each contradicting a quoted "
     "guide sentence.",
     "DESIGN.md §5 C22")
+
+reg("C24",
+    "compiled execution of generated algorithm + PSy layers on the LFRic "
+    "infrastructure against my sequential interpretation of the invoke text; "
+    "static monitor of generated call vs generated routine",
+    "Generated algorithm programs (1-4 invokes of built-ins and four "
+    "hand-written probe kernels; arguments repeated, case-varied, with extra "
+    "blanks, array elements, derived-type components, literals, stencil "
+    "extents, named/unnamed invokes; every field seeded from a distinct "
+    "prime) go through the real generator (dm off/on); both generated "
+    "layers must compile together and, after the run, every field must "
+    "equal the exact-rational interpretation of the invoke text applied to "
+    "the dumped initial data.",
+    "Built-in/probe formulas are mine (exact). Owned DoFs only under dm. "
+    "One program in nine carries a planted dangerous form; four known "
+    "findings (three stencil-extent spellings, invoke label equal to a "
+    "generated routine name).",
+    "DESIGN.md §5 C24")
+
+reg("C29",
+    "cross-process interleaving controller: real psyclone CLI runs paused "
+    "at intercepted os.open/os.write/os.close/open calls of psyGen, all "
+    "interleavings enumerated, offline directory/PSy-layer checker",
+    "Two real `psyclone -okern DIR --kernel-renaming multiple|single` "
+    "processes (identical or different transformed kernels) are released "
+    "step by step at {before create, after create, before write, after "
+    "close, before read-back}; every interleaving is enumerated (a 20-line "
+    "protocol model predicts the counts explored) and after each schedule "
+    "the output directory, exit codes and PSy layers are checked against "
+    "the property's rules; strace cross-checks that the proxies saw every "
+    "file access. Thorough: 3 runs and 2 kernels (partly sampled).",
+    "Interposition happens in the workers' import of psyclone.psyGen "
+    "(sitecustomize on PYTHONPATH, active only with the guard variable); "
+    "granularity = the intercepted calls, one run executing at a time. "
+    "Known: 'single' read-back between create and write.",
+    "DESIGN.md §5 C29")
